@@ -154,7 +154,7 @@ def malformed_search(exe, n=3000):
             g[j] = g[j - 1] + (b[j] - b[j - 1]) - 1
         else:
             b[j] = c["V"] + rnd.choice([0, 3])
-        if kind == "overlap" and g[j] <= g[j - 1]:
+        if (kind == "overlap" and g[j] <= g[j - 1]) or g[j] < 0:
             continue
         c2 = dict(c, g=g, b=b)
         # keep the part the harness derives from the arrays consistent: 'next' is G(w) of the (valid) prefix before the defect
